@@ -378,7 +378,7 @@ func printHuman(res *RunResult, verbose bool) {
 			total++
 			good := o.Result == "unsat"
 			if o.IsCover {
-				good = o.Result == "sat"
+				good = o.Result != "unsat" && !strings.HasPrefix(o.Result, "error")
 			}
 			if o.Exempt != "" {
 				total--
